@@ -11,6 +11,7 @@ import sys
 HERE = os.path.dirname(os.path.abspath(__file__))
 sys.path.insert(0, HERE)
 from pytypes import Unsupported, dict_parts, elem, is_dict, is_list, is_opt, is_tuple, opt_inner, tuple_parts  # noqa: E402
+from pytypes import is_rec, lit_str, rec_parts  # noqa: E402
 
 
 def codec(t, kind):
@@ -26,6 +27,8 @@ def codec(t, kind):
         return p + 'Unit'
     if t == 'date':
         return p + 'Date'
+    if t == 'module':
+        return p + 'Module'
     if is_opt(t):
         return '(%sOpt %s)' % (p, codec(opt_inner(t), kind))
     if is_list(t):
@@ -39,6 +42,13 @@ def codec(t, kind):
         ps = tuple_parts(t)
         if 2 <= len(ps) <= 4:
             return '(%sT%d %s)' % (p, len(ps), ' '.join(codec(x, kind) for x in ps))
+    if is_rec(t) and kind == 'enc':
+        # a record goes on the wire like the dict it models: {"d": [[key, value], ...]} in key order
+        fields = rec_parts(t)
+        names = ['f%d__' % i for i in range(len(fields))]
+        pairs = ', '.join('Json.arr #[Wire.encStr (%s : Str), %s %s]' % (lit_str(k), codec(ft, 'enc'), n)
+                          for (k, ft), n in zip(fields, names))
+        return '(fun r__ => match r__ with | (%s) => Json.mkObj [("d", Json.arr #[%s])])' % (', '.join(names), pairs)
     raise Unsupported('no codec for ' + t)
 
 
@@ -80,6 +90,25 @@ def main(lean_dir):
             fname, ', '.join(apats), binds, enc, call)
         by_mod.setdefault(modname, []).append(line)
         driven[key] = 'driven'
+    # state-passing twins of the functions that use a module-level cache (Gen/warm.json): `<fn>__warm`
+    try:
+        warm = json.load(open(os.path.join(lean_dir, 'Gen', 'warm.json')))
+    except (OSError, ValueError):
+        warm = {}
+    for key, w in sorted(warm.items()):
+        modname, fname = key.split(':')
+        if w.get('today') or modname not in by_mod:
+            continue
+        try:
+            decs = [codec(w['cache_type'], 'dec')] + [codec(t, 'dec') for t in w['ptypes']]
+            enc = '(Wire.encT2 %s %s)' % (codec(w['rtype'], 'enc'), codec(w['cache_type'], 'enc'))
+        except Unsupported:
+            continue
+        names = ['x%d' % i for i in range(len(decs))]
+        binds = ''.join('let %s ← %s a%d; ' % (n, d, i) for i, (n, d) in enumerate(zip(names, decs)))
+        by_mod[modname].append('  | "%s__warm" => match args with\n    | [%s] => (do %spure (Wire.respondWith %s (%s)) : Option String).getD "badargs"\n    | _ => "badargs"' % (
+            fname, ', '.join('a%d' % i for i in range(len(decs))), binds, enc, w['lean'] + ''.join(' ' + n for n in names)))
+        driven[key + '__warm'] = 'driven-warm'
     keep = set()
     for modname, lines in by_mod.items():
         ns = man['modules'][modname]['ns']
